@@ -27,7 +27,7 @@ META = dict(
               "boundary value alphabet incl. implicit and back-references) compared with gcc in in-line, out-of-line "
               "ABI and compiled API mode",
     text="All enumerator sequences of length <= 3 over 13 boundary values (-2^63 .. 2^64-1) + implicit + '= earlier "
-         "name', and length 4 over a 6-value subset (thorough: length 4 over everything, length 5 over the subset), are "
+         "name', and length 4 over a 6-value subset (thorough: length 4 over everything, length 5 over a 4-value subset), are "
          "declared in an in-line FFI, an out-of-line ABI module and a compiled API module; sizeof, signedness, every "
          "enumerator value (lib.X, integer_const, relements) and ffi.string() of every value and of two values outside "
          "the enum are compared with what gcc -std=gnu11 gives the same declaration.",
@@ -50,8 +50,9 @@ VALUES = [
     ("2^64-1", 2 ** 64 - 1, "18446744073709551615u"),
 ]
 SUBSET = [3, 4, 6, 7, 8, 11]        # -1, 0, 2^31-1, 2^31, 2^32-1, 2^63
+SUBSET5 = [3, 6, 8, 11]             # -1, 2^31-1, 2^32-1, 2^63 (length 5, thorough)
 LETTERS = "abcdefgh"
-BLOCK = 250
+BLOCK = 400
 
 # an enumerator: ("v", index into VALUES) | ("i",) | ("r", position of an earlier enumerator)
 
@@ -77,7 +78,7 @@ def enumerate_space(ctx):
     if ctx.quick:
         plan = [(1, full), (2, full), (3, full), (4, SUBSET)]
     else:
-        plan = [(1, full), (2, full), (3, full), (4, full), (5, SUBSET)]
+        plan = [(1, full), (2, full), (3, full), (4, full), (5, SUBSET5)]
     seen = set()
     out = []
     for n, alph in plan:
@@ -124,7 +125,7 @@ def gcc_accepts(texts):
     fn = os.path.join(build.scratch(), "c10_acc_%d.c" % os.getpid())
     with open(fn, "w") as f:
         f.write("\n".join(texts) + "\n")
-    p = subprocess.run(["gcc", "-std=gnu11", "-fsyntax-only", fn], stdout=subprocess.PIPE,
+    p = subprocess.run(["gcc", "-std=gnu11", "-fsyntax-only", "-fno-diagnostics-show-caret", fn], stdout=subprocess.PIPE,
                        stderr=subprocess.PIPE, text=True)
     res = [None] * len(texts)
     other = set()
@@ -409,7 +410,7 @@ def run(ctx):
         blocks.append((i, good[i:i + BLOCK]))
     ctx.log("%d enum declarations, %d accepted by gcc, %d blocks" % (total, len(good), len(blocks)))
     accepted = 0
-    for job, r in pool.pmap(work, [[b] for b in blocks]):
+    for job, r in pool.pmap(work, [[b] for b in blocks], item_timeout=1500):
         if isinstance(r, pool.WorkerError):
             raise InfraError("worker failed: %s" % r.tb)
         if isinstance(r, pool.Crash):
@@ -429,11 +430,12 @@ def run(ctx):
         "evaluations": accepted * len(MODES),
         "distinct_nontrivial": accepted,
         "rule": "every enumerator sequence of the plan %s (length, alphabet size) where each enumerator is one of the "
-                "alphabet's explicit values, implicit, or '= <any earlier enumerator>'; alphabet = %s; subset = %s; "
+                "alphabet's explicit values, implicit, or '= <any earlier enumerator>'; alphabet = %s; subsets = %s / %s; "
                 "non-trivial = accepted by gcc -std=gnu11, so sizeof/signedness/values/ffi.string were compared in 3 "
                 "modes (distinct declarations counted); declarations gcc rejects with an error, or for which it warns that "
                 "no integer type can hold the values, are excluded" % (
-                    [(n, len(a)) for n, a in plan], [v[0] for v in VALUES], [VALUES[i][0] for i in SUBSET]),
+                    [(n, len(a)) for n, a in plan], [v[0] for v in VALUES], [VALUES[i][0] for i in SUBSET],
+                    [VALUES[i][0] for i in SUBSET5]),
         "exhaustive": True,
         "declarations": total,
         "excluded_rejected_by_gcc": total - accepted,
